@@ -56,7 +56,7 @@ def _tlc_cmd(module, cfg, workers, mem, metadir, extra):
 
 def tlc_run(module, cfg, workdir, *, workers=4, mem="3g", timeout=600, extra=(), env=None, java_opts=""):
     metadir = os.path.join(workdir, "tlc-%s-%d" % (os.path.basename(cfg), os.getpid()))
-    e = {"JAVA_TOOL_OPTIONS": ("-Xmx%s %s" % (mem, java_opts)).strip()}
+    e = {"JAVA_TOOL_OPTIONS": ("-Xmx%s -Xss512m %s" % (mem, java_opts)).strip()}
     if env:
         e.update(env)
     t = time.time()
@@ -91,7 +91,7 @@ def parse_mc(out):
     return r
 
 
-def tlc_mc(module, cfg, workdir, *, workers=4, mem="3g", timeout=600, coverage=True):
+def tlc_mc(module, cfg, workdir, *, workers=4, mem="3g", timeout=600, coverage=False):
     """Exhaustive model checking of the design. Returns parsed result + raw output."""
     extra = ["-coverage", "1"] if coverage else []
     dump = os.path.join(workdir, "cex-%s.json" % os.path.basename(cfg))
@@ -136,13 +136,21 @@ def tlc_goal(module, cfg_base, goal, workdir, *, workers=4, timeout=300, var="hi
 
 
 def tlc_simulate(module, cfg, workdir, *, num, depth, seed, timeout=300):
-    """Random walks of the specification; each prints its history once (Emit invariant)."""
-    rc, out, wall = tlc_run(module, cfg, workdir, workers=1, timeout=timeout,
+    """Random walks of the specification; the Emit invariant prints the history of every state beyond
+    DEPTH, the last print of a walk (the longest extension) is the walk's behaviour."""
+    base = open(cfg).read()
+    base = re.sub(r"DEPTH\s*=\s*\d+", "DEPTH = %d" % (depth - 1), base)
+    tmp = os.path.join(workdir, "sim-" + os.path.basename(cfg))
+    open(tmp, "w").write(base)
+    rc, out, wall = tlc_run(module, tmp, workdir, workers=1, timeout=timeout,
                             extra=["-simulate", "num=%d" % num, "-depth", str(depth), "-seed", str(seed)])
     behaviours = []
     for m in re.finditer(r'<<"REPLAY", "(.*)">>', out):
-        s = m.group(1).encode().decode("unicode_escape")
-        behaviours.append(json.loads(s))
+        b = json.loads(m.group(1).encode().decode("unicode_escape"))
+        if behaviours and len(b) > len(behaviours[-1]) and b[:len(behaviours[-1])] == behaviours[-1]:
+            behaviours[-1] = b
+        else:
+            behaviours.append(b)
     if not behaviours:
         sys.stdout.write(out[-3000:])
         raise ToolError("simulation of %s produced no behaviours" % module)
